@@ -1,7 +1,9 @@
 #!/bin/bash
-# try_seed.sh <patch.diff> <command...> : apply patch to /repo, run command, always revert.
+# try_seed.sh <patch.diff> <command...> : apply patch to /repo, run command (under timeout
+# $SEED_TIMEOUT, default 1500 s), always revert - also when interrupted.
 P="$1"; shift
+git -C /repo diff --quiet || { echo "refusing: /repo has uncommitted changes" >&2; exit 8; }
+trap 'git -C /repo checkout -- .' EXIT INT TERM
 git -C /repo apply "$P" || exit 9
-"$@"; RC=$?
-git -C /repo checkout -- . 
+timeout ${SEED_TIMEOUT:-1500} "$@"; RC=$?
 exit $RC
